@@ -391,7 +391,8 @@ class FileWriter(FileBase):
             packed = pack(arr, self.bitsinfo.nbits, bitorder=self.bitsinfo.bitorder)
             packed.tofile(self.file_obj)
         else:
-            arr.tofile(self.file_obj)
+            # Always write at the sample width the file declares
+            arr.astype(self.bitsinfo.dtype, copy=False).tofile(self.file_obj)
 
     def write(self, bo: bytes) -> None:
         """Write the given bytes-like object, bo to the file stream.
